@@ -1212,6 +1212,11 @@ def execute(plan, prop, trace):
 
 def gen_spk(ch):
     h = ch.bytes(32)
+    if ch.chance(0.06):
+        # output scripts with legal but non-minimal pushes (OP_PUSHDATA1/2 for short data), as found on chain: the digests commit
+        # to these bytes as they are
+        d = h[: ch.randrange(1, 30)]
+        return ch.choice([b"\x6a\x4c" + bytes([len(d)]) + d, b"\x6a\x4d" + len(d).to_bytes(2, "little") + d, b"\x4c\x14" + h[:20] + b"\x87", b"\x4e" + len(d).to_bytes(4, "little") + d + b"\x75\x51"]).hex()
     return ch.choice([tm.spk_p2pkh(h[:20]), tm.spk_p2sh(h[:20]), tm.spk_p2wpkh(h[:20]), tm.spk_p2wsh(h), tm.spk_p2tr(secp.xonly(pub(ch.randrange(8)))), b"\x6a" + tm.push(h[: ch.randrange(0, 30)])]).hex()
 
 
